@@ -615,6 +615,52 @@ def check_spellings(argspec, res, env=False, math=False):
         res.nontriv_distinct(len(results))
 
 
+def check_args_math_mode(res):
+    """MacroStandardArgsParser(argspec, args_math_mode=[..]) -- per-argument math / text mode, the
+    pylatexenc-2 spelling -- against argument specifications carrying the corresponding
+    enter / leave-math-mode parsing-state deltas"""
+    from pylatexenc.macrospec import LatexContextDb, MacroSpec, MacroStandardArgsParser
+    from pylatexenc.latexnodes import (LatexArgumentSpec, ParsingStateDeltaEnterMathMode,
+                                       ParsingStateDeltaLeaveMathMode)
+    from pylatexenc.latexwalker import LatexWalker
+    from ..treedump import walk as _walk
+
+    def delta(v):
+        return None if v is None else (ParsingStateDeltaEnterMathMode() if v
+                                       else ParsingStateDeltaLeaveMathMode())
+
+    def run(spec, src):
+        db = LatexContextDb()
+        db.add_context_category('c', macros=[spec])
+        db.set_unknown_macro_spec(MacroSpec(''))
+        w = LatexWalker(src, latex_context=db, tolerant_parsing=False)
+        nl, _, _ = w.get_latex_nodes()
+        return [[n.latex_verbatim(), n.pos, bool(n.parsing_state.in_math_mode)]
+                for n in _walk(nl) if kind(n) in ('chars', 'group', 'macro', 'math')]
+    for argspec in [''.join(t) for l in (1, 2, 3) for t in itertools.product('[{', repeat=l)]:
+        for amm in itertools.product((True, False, None), repeat=len(argspec)):
+            for pattern, ws, call in call_strings(argspec):
+                for host in ('%s z', '$%s z$', '{%s}', '\\zzm{x}%s'):
+                    src = host % ('\\zzm' + call)
+                    res.case()
+                    case = {'what': 'args_math_mode', 'argspec': argspec, 'arg': list(amm),
+                            's': src}
+                    a = attempt(lambda: run(MacroSpec('zzm', args_parser=MacroStandardArgsParser(
+                        argspec, args_math_mode=list(amm))), src))
+                    b = attempt(lambda: run(MacroSpec('zzm', [LatexArgumentSpec(
+                        c, parsing_state_delta=delta(v)) for c, v in zip(argspec, amm)]), src))
+                    if a[0] == 'exc':
+                        res.fail('exc:%s@legacy:args_math_mode' % a[1], str(a), case)
+                    elif b[0] != 'exc' and a != b:
+                        res.fail('c16:differs:args_math_mode', '%r args_math_mode=%r on %r: legacy %s, '
+                                 'argument specs with mode deltas %s' % (argspec, amm, src,
+                                                                         str(a)[:200], str(b)[:200]),
+                                 case)
+                    if any(v is not None for v in amm):
+                        res.nontriv_distinct()
+    res.label('args_math_mode')
+
+
 LEGACY_STATE_DOCS = ['\\begin{zzenv}{a}x^2 \\textbf{b}\\end{zzenv} y $z$',
                      '\\begin{zzenv}{a}\\end{zzenv}', 'p \\begin{zzenv}{a}{q}$\\end{zzenv}',
                      'a \\zzsw b {c} \\textbf{d}', '{\\zzsw x} y', '\\zzsw']
@@ -691,7 +737,7 @@ def plan(tier, seed):
                                  'both-succeed:get_latex_nodes(stop_upon_closing_mathmode=$)',
                                  'both-succeed:get_latex_environment',
                                  'both-succeed:get_latex_braced_group([)',
-                                 'legacy-4-tuple-states', 'tolerant-walkers',
+                                 'legacy-4-tuple-states', 'args_math_mode', 'tolerant-walkers',
                                  'both-succeed:expression(parsing_state=)',
                                  'both-succeed:braced_group(parsing_state=)']}
 
@@ -699,6 +745,7 @@ def plan(tier, seed):
 def run_shard(shard, res):
     if shard[0] == 'legacy-states':
         check_legacy_states(res)
+        check_args_math_mode(res)
         return
     if shard[0] == 'soups':
         _, L, k = shard
@@ -730,7 +777,9 @@ def run_shard(shard, res):
 
 def check_case(case, res):
     w = case['what']
-    if w == 'legacy-states':
+    if w == 'args_math_mode':
+        check_args_math_mode(res)
+    elif w == 'legacy-states':
         check_legacy_states(res)
     elif w == 'spelling':
         check_spellings(case['argspec'], res, env=case.get('env', False),
